@@ -1,5 +1,6 @@
 import CwMt.Model.Registry
 import CwMt.Model.Executor
+import CwMt.Model.Address
 import CwMt.Model.Staking
 import CwMt.Driver.Util
 /-
@@ -488,11 +489,56 @@ structure DApp where
   trace : List String := []
   deriving Inhabited
 
+/-- which Api the slice's Apps are built with: 0 = not recomputed (custom Api / address generator),
+1 = `MockApi::default()` (Bech32, prefix cosmwasm), 2 = `MockApiBech32::new("juno")`, 3 = `MockApiBech32m::new("juno")` -/
 structure WState where
   apps : List DApp := [{}, {}, {}]
   cur : Nat := 0
   chks : List (Nat × Val) := []
+  api : Nat := 1
   deriving Inhabited
+
+def apiOfSlice (name : String) : Nat :=
+  if name == "wasm-legacy" then 0
+  else if name == "wasm-bech-mix" then 3
+  else if name.startsWith "wasm-bech" then 2
+  else 1
+
+def apiCodec (api : Nat) : Option (Bech32.Variant × List Char) :=
+  match api with
+  | 1 => some (.default, "cosmwasm".toList)
+  | 2 => some (.bech32, "juno".toList)
+  | 3 => some (.bech32m, "juno".toList)
+  | _ => none
+
+def showAddr (o : Outcome (List Char)) : String :=
+  match o with
+  | .ok s => String.ofList s
+  | .err => "addr-error"
+  | .panic => "addr-panic"
+  | .outOfFuel => "addr-error"
+
+/-- the value the crate derives for a symbol of the line protocol (`uN` / `nN` / `creator`: `addr_make`;
+`c<code>_<instance>`: classic contract address); `none` = not derivable (declared value is used) -/
+def computeSym (api : Nat) (sym : String) : Option String :=
+  match apiCodec api with
+  | none => none
+  | some (v, pfx) =>
+    if sym == "creator" then some (showAddr (Address.make .default "cosmwasm".toList "creator"))
+    else if sym.startsWith "u" || sym.startsWith "n" then some (showAddr (Address.make v pfx sym))
+    else if sym.startsWith "c" then
+      match (sym.drop 1).toString.splitOn "_" with
+      | [c, i] =>
+        match c.toNat?, i.toNat? with
+        | some c, some i => some (showAddr (Address.classicAddr v pfx c i))
+        | _, _ => none
+      | _ => none
+    else none
+
+def computeSalted (api : Nat) (chk : Val) (creator : String) (salt : Val) : Option String :=
+  match apiCodec api with
+  | none => none
+  | some (v, pfx) => some (showAddr (Address.saltedAddr v pfx chk creator.toList salt))
 
 def fuelMax : Nat := 100000
 
@@ -570,20 +616,22 @@ def stepWasm (st : WState) (line : String) : WState × String :=
     | "app" => ({ st with cur := if a 1 == "2" then 1 else if a 1 == "3" then 2 else 0 }, "ok")
     | "section" => (st, "ok")
     | "bind" =>
-      -- symbols are shared by both App instances
+      -- symbols are shared by both App instances; the answer is the value the MODEL derives (SHA-256 + bech32),
+      -- so a declaration that is not what the crate's derivation rules give shows up as a difference on this line
       let upd (ap : DApp) : DApp := { ap with ch := { ap.ch with ext := { ap.ch.ext with syms := (a 1, a 2) :: ap.ch.ext.syms } } }
-      ({ st with apps := st.apps.map upd }, "bound " ++ a 2)
+      ({ st with apps := st.apps.map upd }, "bound " ++ (computeSym st.api (a 1)).getD (a 2))
     | "bind2" =>
       let chk := (a 1).toNat?.bind (fun n => st.chks.lookup n) |>.getD []
       let key := "i2:" ++ hex chk ++ ":" ++ real (a 2) ++ ":" ++ a 3
       let sym := "i2_" ++ a 1 ++ "_" ++ a 2 ++ "_" ++ a 3
       let upd (ap : DApp) : DApp := { ap with ch := { ap.ch with ext := { ap.ch.ext with
         syms := (key, a 4) :: (sym, a 4) :: ap.ch.ext.syms } } }
-      ({ st with apps := st.apps.map upd }, "bound " ++ a 4)
+      ({ st with apps := st.apps.map upd }, "bound " ++ (computeSalted st.api chk (real (a 2)) ((unhex (a 3)).getD [])).getD (a 4))
     | "bind2x" =>
       let key := "i2:" ++ a 1 ++ ":" ++ real (a 2) ++ ":" ++ a 3
       let upd (ap : DApp) : DApp := { ap with ch := { ap.ch with ext := { ap.ch.ext with syms := (key, a 4) :: ap.ch.ext.syms } } }
-      ({ st with apps := st.apps.map upd }, "bound " ++ a 4)
+      ({ st with apps := st.apps.map upd },
+        "bound " ++ (computeSalted st.api ((unhex (a 1)).getD []) (real (a 2)) ((unhex (a 3)).getD [])).getD (a 4))
     | "store-c" =>
       match Registry.storeCode ⟨app.codes, app.codeBase.length⟩ (real "creator") (fun _ => (unhex (a 2)).getD []) with
       | .ok (id, _) =>
@@ -598,7 +646,7 @@ def stepWasm (st : WState) (line : String) : WState × String :=
       | _ => (st, "err")
     | "bindc" =>
       match (a 1).toNat?, unhex (a 2) with
-      | some n, some h => ({ st with chks := (n, h) :: st.chks }, "bound " ++ a 2)
+      | some n, some h => ({ st with chks := (n, h) :: st.chks }, "bound " ++ hex (Address.defaultChecksum n))
       | _, _ => (st, "bad-op")
     | "store" =>
       match Registry.storeCode ⟨app.codes, app.codeBase.length⟩ (real "creator") (fun id => (st.chks.lookup id).getD []) with
